@@ -676,6 +676,22 @@ pub fn generate(prop: &str, thorough: bool, rng: &mut Rng) -> Case {
                 }
             }
             clients.push(ops);
+            // second life (repeated crash / restart cycles): after the recovery on a crash image the store is used again
+            // (clients[1]: inserts of new versions and deletes, then evict_all + wait), the process dies a second time
+            // at a prefix of the writes of that second life, and the store is recovered once more
+            if rng.chance(1, 2) {
+                cfg.insert("second_life".into(), 1);
+                let mut ops2 = vec![];
+                for _ in 0..1 + rng.below(5) {
+                    let k = rng.below(keys as usize) as u64;
+                    if rng.chance(3, 4) {
+                        ops2.push(Op::Insert { k, ver: 0, w: rng.below(2) as u32, loc: 0, hold: false });
+                    } else {
+                        ops2.push(Op::Remove { k });
+                    }
+                }
+                clients.push(ops2);
+            }
         }
         _ => panic!("hybgen: unknown property {prop}"),
     }
